@@ -177,10 +177,13 @@ class BetaLaw(Law):
         return np.clip((_arr(x) - self.lo) / (self.hi - self.lo), 0.0, 1.0)
 
     def cdf(self, x):
-        return special.betainc(self.a, self.b, self._u(x))
+        u = self._u(x)
+        return np.where(u <= 0.5, special.betainc(self.a, self.b, u), 1.0 - special.betainc(self.b, self.a, 1.0 - u))
 
     def sf(self, x):
-        return special.betainc(self.b, self.a, 1.0 - self._u(x))
+        # for small u, 1 - u rounds to 1: take the complement of the (accurate) lower tail instead
+        u = self._u(x)
+        return np.where(u <= 0.5, 1.0 - special.betainc(self.a, self.b, u), special.betainc(self.b, self.a, 1.0 - u))
 
     def sf_from_one_minus(self, v):
         """P(X > 1 - v) for the standard beta, v tiny (resolves mass next to 1)"""
@@ -929,6 +932,18 @@ def get(fam, pv):
         return NormalLaw(pv[0], pv[1])
     if fam == 'log_normal':
         return LogNormalLaw(pv[0], pv[1])
+    if fam == 'normal_cv':
+        # documented: cv = abs(sigma / mu)
+        return NormalLaw(pv[0], pv[1] * pv[0])
+    if fam == 'log_normal_cv':
+        # linear-space mean m and cv: sigma^2 = ln(1 + cv^2), mu = ln(m) - sigma^2 / 2
+        s2 = math.log1p(pv[1] * pv[1])
+        return LogNormalLaw(math.log(pv[0]) - s2 / 2.0, math.sqrt(s2))
+    if fam == 'pert_mean':
+        mn, mx, mean, shape = pv
+        mode = ((shape + 2.0) * mean - mn - mx) / shape
+        r = mx - mn
+        return BetaLaw(1.0 + shape * (mode - mn) / r, 1.0 + shape * (mx - mode) / r, mn, mx)
     if fam == 'exp1':
         return ExpLaw(1.0)
     if fam == 'exp':
